@@ -176,8 +176,12 @@ def run(rep, work, rng, tier):
         if big:
             ci = rng.choice(big); i2 = rng.randrange(1, len(conts[ci])); nm = b'UNIQ%d' % i
             ops += [('r', ci, i2, nm), ('q', ci, nm), ('r', ci, rng.randrange(i2), nm + (b' ' if rng.random() < 0.3 else b'')), ('q', ci, nm)]
+        # ... and through a reference the caller TOOK EARLIER and still holds (Point& p = pts.point_nonConst(j); ... p.name(..)): look-ups
+        # made in between must not freeze what the container answers
+        ci = rng.randrange(len(conts)); j = rng.randrange(len(conts[ci])); nm2 = b'KEPT%d' % i
+        ops += [('k', ci, j), ('q', ci, conts[ci][j]), ('q', ci, nm2), ('w', 0, nm2 + (b'  ' if rng.random() < 0.5 else b'')), ('q', ci, nm2), ('q', ci, conts[ci][j])]
         rline = ' '.join([str(len(conts))] + ['%d %s' % (len(cn), ' '.join(hx(x) for x in cn)) for cn in conts] + [str(len(ops))] +
-                         [('r %d %d %s' % (o[1], o[2], hx(o[3]))) if o[0] == 'r' else ('q %d %s' % (o[1], hx(o[2]))) for o in ops])
+                         [('r %d %d %s' % (o[1], o[2], hx(o[3]))) if o[0] == 'r' else ('k %d %d' % (o[1], o[2])) if o[0] == 'k' else ('w %d %s' % (o[1], hx(o[2]))) if o[0] == 'w' else ('q %d %s' % (o[1], hx(o[2]))) for o in ops])
         cases.append(('ren%d' % i, ['mk.ptsr ' + rline, 'mk.chsr ' + rline]))
     sel = lambda ln: ln.startswith('get.') or ln.startswith('mk.') or ln.startswith('P.as')
     (c, _), (m, _), nd = common.correspondence(rep, work, cases, select=sel, label='look-ups')
@@ -190,10 +194,20 @@ def run(rep, work, rng, tier):
             t = ln.split(' '); i = 1; nc = int(t[i]); i += 1; conts = []
             for _ in range(nc):
                 k = int(t[i]); i += 1; conts.append([harness.unhx(x).rstrip(b' ') for x in t[i:i + k]]); i += k
-            nq = int(t[i]); i += 1; exp = ['ok']
+            nq = int(t[i]); i += 1; exp = ['ok']; kept = None
             for _ in range(nq):
                 if cid.startswith('ren'):
                     what = t[i]; i += 1
+                    if what == 'k':
+                        ci = int(t[i]); j = int(t[i + 1]); i += 2
+                        if j < len(conts[ci]): kept = (ci, j); exp.append('k')
+                        else: exp.append('o')
+                        continue
+                    if what == 'w':
+                        nm = harness.unhx(t[i + 1]).rstrip(b' '); i += 2
+                        if kept is not None: conts[kept[0]][kept[1]] = nm; exp.append('w')
+                        else: exp.append('-')
+                        continue
                     if what == 'r':
                         ci = int(t[i]); j = int(t[i + 1]); nm = harness.unhx(t[i + 2]).rstrip(b' '); i += 3
                         if j < len(conts[ci]): conts[ci][j] = nm; exp.append('r')
